@@ -26,6 +26,7 @@ type FuncContract struct {
 	LoopInv    map[int][]Clause // loop ordinal (1-based, pre-order) -> invariants
 	LoopMod    map[int][]string // extra havoc targets
 	NoPanic    bool
+	Recovers   bool // every panic raised while the body runs is caught by a deferred recover of this function (structural rule)
 	Inline     bool
 	Assumed    bool // assume-contract: body not verified
 	Mode       string
@@ -261,6 +262,8 @@ func (pc *PkgContracts) parseFile(path string) error {
 				}
 			case "nopanic":
 				cur.NoPanic = true
+			case "recovers":
+				cur.Recovers = true
 			case "safe":
 				for _, k := range strings.FieldsFunc(rest, func(r rune) bool { return r == ',' || r == ' ' }) {
 					cur.Safe[k] = true
